@@ -219,7 +219,6 @@ type c20Obs struct {
 	From   int      `json:"from"`
 	W      []string `json:"w"`
 	Wst    string   `json:"wst,omitempty"`
-	Left   int      `json:"left,omitempty"` // br: bytes of input still buffered in the reader right after this Reset
 	OutLen int      `json:"out_len,omitempty"`
 	OutSum string   `json:"out_sum,omitempty"`
 	Note   string   `json:"note,omitempty"`
@@ -297,25 +296,6 @@ func c20Wst(enc string, d connect.Decompressor) string {
 		return "live"
 	}
 	return "?"
-}
-
-// input that the brotli reader under the wrapper still has buffered (brotli.Reader.in), by reflection;
-// -1 if the wrapper no longer looks like that.  Right after a Reset anything > 0 is input of an
-// EARLIER stream that will be decoded ahead of the new source.
-func c20BrotliLeft(d connect.Decompressor) int {
-	v := reflect.ValueOf(d)
-	if v.Kind() != reflect.Pointer || v.IsNil() || v.Elem().Kind() != reflect.Struct {
-		return -1
-	}
-	f := v.Elem().FieldByName("reader")
-	if !f.IsValid() || f.Kind() != reflect.Pointer || f.IsNil() || f.Elem().Kind() != reflect.Struct {
-		return -1
-	}
-	in := f.Elem().FieldByName("in")
-	if !in.IsValid() || in.Kind() != reflect.Slice {
-		return -1
-	}
-	return in.Len()
 }
 
 type c20ReadCloser struct {
@@ -525,8 +505,8 @@ func c20Where() string {
 	return strings.Join(res, " <-")
 }
 
-// one decompressor history on one real instance; discipline applied dynamically: calls after a
-// Reset that reported an error are not made until the next Reset (obs.Ret = "skipped")
+// one decompressor history on one real instance (every call is made, also Read / Close right
+// after a Reset that reported an error)
 func c20RunD(enc string, ops []c20Op, ps *c20Payloads, conc *c20Conc) (obs []c20Obs, srcClosed int32) {
 	r := rand.New(rand.NewPCG(conc.Seed, 7))
 	d, err := c20NewDecompressor(enc, conc.Ctor)
@@ -538,15 +518,9 @@ func c20RunD(enc string, ops []c20Op, ps *c20Payloads, conc *c20Conc) (obs []c20
 		_ = d.Close()
 	}()
 	from := 0
-	resetFailed := false
 	for i, op := range ops {
 		var ob c20Obs
 		ob.From = from
-		if resetFailed && op.O != "Reset" {
-			ob.Ret = "skipped"
-			obs = append(obs, ob)
-			continue
-		}
 		switch op.O {
 		case "Reset":
 			data := c20StreamBytes(enc, op, ps, conc, r)
@@ -557,11 +531,7 @@ func c20RunD(enc string, ops []c20Op, ps *c20Payloads, conc *c20Conc) (obs []c20
 				src = c20Source(conc.SrcPattern+i, data, &srcClosed)
 			}
 			ob.Ret, ob.Err = c20Call(func() error { return d.Reset(src) })
-			resetFailed = ob.Ret != "ok"
 			from = 0
-			if enc == "br" {
-				ob.Left = max(0, c20BrotliLeft(d))
-			}
 		case "Read1", "ReadAll":
 			var out []byte
 			all := op.O == "ReadAll"
@@ -789,9 +759,6 @@ func c20FirstBad(s *c20Scn, obs []c20Obs) int {
 		if i >= len(obs) {
 			return i
 		}
-		if obs[i].Ret == "skipped" {
-			continue
-		}
 		if !c20ObsOK(s.Obl[i], obs[i]) {
 			return i
 		}
@@ -799,31 +766,11 @@ func c20FirstBad(s *c20Scn, obs []c20Obs) int {
 	return -1
 }
 
-// cause of a miss, as far as the harness can tell from the history before it (goes into the
-// candidate key, so that a known finding matches its own failure mode only)
-func c20Cause(enc string, s *c20Scn, at int, obs []c20Obs, pipeClosed bool) string {
-	if s.Side == "C" && pipeClosed {
-		// a call fails because an earlier Close of this history closed the shared sink
-		for i := 0; i < at && i < len(s.Ops); i++ {
-			if s.Ops[i].O == "Close" {
-				return "sink-closed-by-compressor-Close"
-			}
-		}
-	}
-	if s.Side == "D" && enc == "br" && at < len(obs) && c20IsBrotliOverrun(obs[at]) {
+// cause of a miss where the harness recognises a third-party failure mode by its panic site (goes
+// into the candidate key; every other miss has cause "")
+func c20Cause(enc string, s *c20Scn, at int, obs []c20Obs) string {
+	if s.Side == "D" && enc == "br" && at >= 0 && at < len(obs) && c20IsBrotliOverrun(obs[at]) {
 		return "brotli-bytewise-source-internal-buffer-overrun"
-	}
-	if s.Side == "D" && enc == "br" {
-		// the mechanism itself is observed: right after the Reset that bound the stream being read,
-		// the brotli reader still held input of an earlier stream (brotli.Reader.Reset keeps it)
-		for i := min(at, len(obs)-1); i >= 0; i-- {
-			if s.Ops[i].O == "Reset" {
-				if obs[i].Left > 0 {
-					return "brotli-reset-keeps-buffered-input"
-				}
-				break
-			}
-		}
 	}
 	return ""
 }
@@ -874,7 +821,7 @@ func TestVerifC20Replay(t *testing.T) {
 		pss = append(pss, ps)
 	}
 	chunks := []int{1, 3, 512, 5000}
-	var evals, calls, nontrivial, skippedCalls, srcClosedN, pipeClosedN int64
+	var evals, calls, nontrivial, srcClosedN, pipeClosedN int64
 	var byEnc sync.Map
 	var maxMu sync.Mutex
 	reported := map[string]int{}
@@ -883,11 +830,6 @@ func TestVerifC20Replay(t *testing.T) {
 		obs, srcClosed, pipeClosed, hang := c20Run(enc, s, ps, &conc)
 		atomic.AddInt64(&evals, 1)
 		atomic.AddInt64(&calls, int64(len(obs)))
-		for _, o := range obs {
-			if o.Ret == "skipped" {
-				atomic.AddInt64(&skippedCalls, 1)
-			}
-		}
 		if srcClosed > 0 {
 			atomic.AddInt64(&srcClosedN, 1)
 		}
@@ -919,7 +861,7 @@ func TestVerifC20Replay(t *testing.T) {
 			if at < len(obs) {
 				m.Obs = obs[at]
 			}
-			m.Cause = c20Cause(enc, s, at, obs, pipeClosed)
+			m.Cause = c20Cause(enc, s, at, obs)
 		}
 		// keep the output small: at most 40 reports per (enc, side, op, must, cause)
 		key := fmt.Sprintf("%s/%s/%s/%s/%s/%s", enc, s.Side, m.Op.O, m.Obl.Must, m.Cause, m.Obs.Ret)
@@ -996,12 +938,13 @@ func TestVerifC20Replay(t *testing.T) {
 	be := map[string]int64{}
 	byEnc.Range(func(k, v any) bool { be[k.(string)] = *v.(*int64); return true })
 	out.Put(map[string]any{"summary": true, "scenarios": len(scns), "evaluations": evals, "calls": calls,
-		"calls_skipped_by_discipline": skippedCalls, "nontrivial": nontrivial, "by_enc": be,
+		"nontrivial": nontrivial, "by_enc": be,
 		"runs_where_decompressor_closed_its_source": srcClosedN, "runs_where_compressor_closed_its_sink": pipeClosedN})
 }
 
-// TestVerifC20Hazard: behaviour outside the usage discipline, recorded as a note (never a verdict):
-// Close / Read right after a Reset that failed, on an instance that never had a successful Reset.
+// TestVerifC20Hazard: fixed crash probes - Close / Read right after a Reset that failed on an
+// instance that never had a successful Reset; a stream with 8 bytes after its end delivered one byte
+// per Read; and (a note) what a 13-byte zstd header makes the decoder allocate.
 func TestVerifC20Hazard(t *testing.T) {
 	out, err := verifutil.NewOut(verifutil.Env("VERIF_OUT", "hazard.ndjson"))
 	if err != nil {
@@ -1097,7 +1040,6 @@ type c20Rob struct {
 	W    []string `json:"w"`
 	Wst  string   `json:"wst"`
 	Err  string   `json:"err"`
-	Left int      `json:"left"`
 }
 
 // TestVerifC20Record: long seeded histories (beyond the TLC domain: up to 40 calls, 1 MiB payloads,
@@ -1142,7 +1084,7 @@ func TestVerifC20Record(t *testing.T) {
 			Ctor: []string{"get", "new"}[r.IntN(2)], Seed: r.Uint64(), CutAt: -1, FlipBit: -1}
 		l := 2 + r.IntN(maxLen-1)
 		if (i/len(c20Encs))%3 != 0 {
-			// decompressor: the driver keeps the discipline itself (it sees the results)
+			// decompressor: any call order after a first Reset
 			rec := c20Rec{I: i, Side: "D", Enc: enc, Conc: conc}
 			ps := pss[psid]
 			rr := rand.New(rand.NewPCG(conc.Seed, 7))
@@ -1152,10 +1094,9 @@ func TestVerifC20Record(t *testing.T) {
 			}
 			var srcClosed int32
 			from := 0
-			resetFailed := true
 			for j := 0; j < l; j++ {
 				var op c20Op
-				if resetFailed || r.IntN(3) == 0 {
+				if j == 0 || r.IntN(3) == 0 {
 					op = streams[r.IntN(len(streams))]
 					if r.IntN(2) == 0 {
 						op = streams[r.IntN(3)] // bias towards valid streams
@@ -1172,11 +1113,7 @@ func TestVerifC20Record(t *testing.T) {
 						_ = os.WriteFile(fmt.Sprintf("%s/c20-%d-%02d-%s-src%d.bin", dir, i, j, op.K, (conc.SrcPattern+j)%4), data, 0o644)
 					}
 					ob.Ret, ob.Err = c20Call(func() error { return d.Reset(c20Source(conc.SrcPattern+j, data, &srcClosed)) })
-					resetFailed = ob.Ret != "ok"
 					from = 0
-					if enc == "br" {
-						ob.Left = max(0, c20BrotliLeft(d))
-					}
 				case "Read1", "ReadAll":
 					all := op.O == "ReadAll"
 					var outb []byte
